@@ -519,6 +519,37 @@ fn run_wf(args: &[String]) {
             }
         }
     }
+    // negative-entry LOOKUP (Entry.inode == 0) on servers negotiated at different minors: before 7.4 a zero nodeid is not
+    // a valid reply, the protocol wants ENOENT
+    for minor in [3u64, 4, 33] {
+        let fs2 = Arc::new(ScriptedFs::new("s"));
+        let server2 = Server::new(fs2.clone());
+        let mut iv = Vals::new();
+        iv.insert("major".into(), 7);
+        iv.insert("minor".into(), minor);
+        let mut body = abi.encode("fuse_init_in", &iv);
+        body.truncate(16);
+        let mut h = Vals::new();
+        h.insert("len".into(), 56);
+        h.insert("opcode".into(), abi.konst("FUSE_INIT"));
+        h.insert("unique".into(), 1);
+        let mut ib = abi.encode("fuse_in_header", &h);
+        ib.extend(body);
+        fs2.set(Ret::Init(0));
+        let _ = run_fusedev(&server2, &ib, 4096, None, &pair);
+        for rep in 0..(2 * k.max(1)) {
+            let mut b = build(&abi, &mut rng, "LOOKUP", &[], false);
+            let mut e = rentry(&mut rng);
+            if rep % 2 == 0 {
+                e.inode = 0;
+            }
+            b.script = Ret::Entry(e);
+            fs2.set(b.script.clone());
+            fs2.take_log();
+            let o = run_fusedev(&server2, &b.bytes, 4096, None, &pair);
+            emit_tx(&mut tr, &abi, &fs2, "fusedev", "LOOKUP", "wf", &b, &o, json!({"cap": 4096, "minor": minor}));
+        }
+    }
     // notification messages (fusedev only)
     for i in 0..(8 * k.max(1)) {
         use fuse_backend_rs::transport::FuseDevWriter;
